@@ -68,23 +68,18 @@ impl Builder {
     }
 
     fn set_resources(cert: &mut TbsCert, blocks: &[usize], extra_v4: Option<(u128, u8)>) {
-        Self::set_resources_slash0(cert, blocks, extra_v4, false)
+        Self::set_resources_slash0(cert, blocks, extra_v4, false, false)
     }
 
-    fn set_resources_slash0(cert: &mut TbsCert, blocks: &[usize], extra_v4: Option<(u128, u8)>, slash0: bool) {
-        if slash0 {
-            cert.build_v4_resource_blocks(|b| { b.push(ResPrefix::new(Addr::from_bits(0), 0)); });
-            cert.build_v6_resource_blocks(|b| { b.push(ResPrefix::new(Addr::from_bits(0), 0)); });
-            cert.build_as_resource_blocks(|b| {
-                for i in blocks { let (lo, hi) = block_as(*i); b.push((Asn::from_u32(lo), Asn::from_u32(hi))); }
-            });
-            return
-        }
+    /// `all_v4` / `all_v6`: the certificate holds the whole address family instead of the blocks.
+    fn set_resources_slash0(cert: &mut TbsCert, blocks: &[usize], extra_v4: Option<(u128, u8)>, all_v4: bool, all_v6: bool) {
         cert.build_v4_resource_blocks(|b| {
+            if all_v4 { b.push(ResPrefix::new(Addr::from_bits(0), 0)); return }
             for i in blocks { let (bits, len) = block_v4(*i); b.push(ResPrefix::new(Addr::from_bits(bits), len)); }
             if let Some((bits, len)) = extra_v4 { b.push(ResPrefix::new(Addr::from_bits(bits), len)); }
         });
         cert.build_v6_resource_blocks(|b| {
+            if all_v6 { b.push(ResPrefix::new(Addr::from_bits(0), 0)); return }
             for i in blocks { let (bits, len) = block_v6(*i); b.push(ResPrefix::new(Addr::from_bits(bits), len)); }
         });
         cert.build_as_resource_blocks(|b| {
@@ -96,8 +91,8 @@ impl Builder {
     pub fn ta_cert(&mut self, w: &World, tal: usize, key: usize, nb: Ts, na: Ts) -> Bytes {
         let root = w.tals[tal].root;
         let blocks = w.blocks(root);
-        let slash0 = w.cas[root].slash0;
-        let k = format!("ta|{tal}|{key}|{nb}|{na}|{:?}|{}|{}|{slash0}|{}", blocks, w.ca_repository(root), w.cas[root].rrdp, w.notify_host(w.cas[root].repo));
+        let slash0 = (w.whole_family(root, true), w.whole_family(root, false));
+        let k = format!("ta|{tal}|{key}|{nb}|{na}|{:?}|{}|{}|{slash0:?}|{}", blocks, w.ca_repository(root), w.cas[root].rrdp, w.notify_host(w.cas[root].repo));
         let (repo, mft, notify) = (w.ca_repository(root), w.manifest_uri(root), if w.cas[root].rrdp { Some(w.notify_uri(w.cas[root].repo)) } else { None });
         self.cached(k, |s| {
             let pk = s.public(key).clone();
@@ -106,7 +101,7 @@ impl Builder {
             cert.set_ca_repository(Some(rsync(&repo)));
             cert.set_rpki_manifest(Some(rsync(&mft)));
             if let Some(n) = notify { cert.set_rpki_notify(Some(uri::Https::from_str(&n).unwrap())); }
-            Self::set_resources_slash0(&mut cert, &blocks, None, slash0);
+            Self::set_resources_slash0(&mut cert, &blocks, None, slash0.0, slash0.1);
             cert.into_cert(s, &key).expect("sign ta").to_captured().into_bytes()
         })
     }
@@ -121,8 +116,8 @@ impl Builder {
         let (repo, mft) = (w.ca_repository(child), w.manifest_uri(child));
         let notify = if w.cas[child].rrdp { Some(w.notify_uri(w.cas[child].repo)) } else { None };
         let extra = if o.fault == Some(Fault::Overclaim) { Some(((((172u32 << 24) | (16 << 16) | ((child as u32 & 0xff) << 8)) as u128) << 96, 24)) } else { None };
-        let slash0 = w.cas[child].slash0;
-        let k = format!("cacert|{parent}|{child}|{pkey}|{ckey}|{sign_key}|{}|{}|{}|{:?}|{:?}|{crl}|{repo}|{:?}|{}|{slash0}", o.serial, o.nb, o.na, blocks, extra, notify, o.salt);
+        let slash0 = (w.whole_family(child, true), w.whole_family(child, false));
+        let k = format!("cacert|{parent}|{child}|{pkey}|{ckey}|{sign_key}|{}|{}|{}|{:?}|{:?}|{crl}|{repo}|{:?}|{}|{slash0:?}", o.serial, o.nb, o.na, blocks, extra, notify, o.salt);
         let (serial, nb, na) = (o.serial, o.nb, o.na);
         let b = self.cached(k, |s| {
             let ppk = s.public(pkey).clone();
@@ -135,7 +130,7 @@ impl Builder {
             cert.set_ca_repository(Some(rsync(&repo)));
             cert.set_rpki_manifest(Some(rsync(&mft)));
             if let Some(n) = notify { cert.set_rpki_notify(Some(uri::Https::from_str(&n).unwrap())); }
-            Self::set_resources_slash0(&mut cert, &blocks, extra, slash0);
+            Self::set_resources_slash0(&mut cert, &blocks, extra, slash0.0, slash0.1);
             cert.into_cert(s, &sign_key).expect("sign ca").to_captured().into_bytes()
         });
         if o.fault == Some(Fault::BadSignature) { flip_tail(&b) } else { b }
